@@ -163,7 +163,7 @@ func instrumentDir(dir, outDir, virtDir string, harness bool, replace map[string
 		return
 	}
 	// type information (best effort) to recognise ranges over maps/channels
-	info := &types.Info{Types: map[ast.Expr]types.TypeAndValue{}}
+	info := &types.Info{Types: map[ast.Expr]types.TypeAndValue{}, Selections: map[*ast.SelectorExpr]*types.Selection{}, Uses: map[*ast.Ident]types.Object{}, Defs: map[*ast.Ident]types.Object{}}
 	byPkg := map[string][]*ast.File{}
 	for _, p := range files {
 		byPkg[p.f.Name.Name] = append(byPkg[p.f.Name.Name], p.f)
@@ -313,6 +313,11 @@ var (
 func (r *rewriter) node(n ast.Node) ast.Node {
 	if n == nil || reflect.ValueOf(n).IsNil() {
 		return n
+	}
+	if !r.harness {
+		if repl, handled := r.raceNode(n); handled {
+			return repl
+		}
 	}
 	switch x := n.(type) {
 	case *ast.LabeledStmt:
@@ -682,4 +687,100 @@ func (r *rewriter) rangeChan(s *ast.RangeStmt) ast.Stmt {
 	}
 	body.List = append(head, body.List...)
 	return &ast.ForStmt{Body: body}
+}
+
+// ---------------------------------------------------------------- field/map access instrumentation (C15)
+
+func (r *rewriter) isFieldSel(e ast.Expr) bool {
+	sel, ok := e.(*ast.SelectorExpr)
+	if !ok {
+		return false
+	}
+	s, ok := r.info.Selections[sel]
+	return ok && s.Kind() == types.FieldVal
+}
+
+// chainOK: e is made of variable identifiers and field selections only, so
+// &e is legal and evaluating it has no side effects.
+func (r *rewriter) chainOK(e ast.Expr) bool {
+	switch x := e.(type) {
+	case *ast.Ident:
+		_, isVar := r.info.Uses[x].(*types.Var)
+		return isVar
+	case *ast.ParenExpr:
+		return r.chainOK(x.X)
+	case *ast.SelectorExpr:
+		return r.isFieldSel(x) && r.chainOK(x.X)
+	}
+	return false
+}
+
+func (r *rewriter) wrapAccess(e ast.Expr, write bool) ast.Expr {
+	name := "R"
+	if write {
+		name = "W"
+	}
+	r.stats["access"]++
+	return &ast.StarExpr{X: r.call(name, &ast.UnaryExpr{Op: token.AND, X: e}, r.site(e))}
+}
+
+// lvalue instruments an assignment target.
+func (r *rewriter) lvalue(e ast.Expr) ast.Expr {
+	switch x := e.(type) {
+	case *ast.SelectorExpr:
+		if r.isFieldSel(x) && r.chainOK(x) {
+			return r.wrapAccess(x, true)
+		}
+	case *ast.IndexExpr:
+		// x.m[k] = v / x.s[i] = v: a write to the container held in the field
+		if r.isFieldSel(x.X) && r.chainOK(x.X) {
+			x.X = r.wrapAccess(x.X, true)
+			x.Index = r.node(x.Index).(ast.Expr)
+			return x
+		}
+	case *ast.ParenExpr:
+		x.X = r.lvalue(x.X)
+		return x
+	}
+	return r.node(e).(ast.Expr)
+}
+
+// raceNode handles the node kinds that need pre-order treatment.
+func (r *rewriter) raceNode(n ast.Node) (ast.Node, bool) {
+	switch x := n.(type) {
+	case *ast.AssignStmt:
+		if x.Tok == token.DEFINE {
+			return nil, false
+		}
+		if len(x.Lhs) == 2 && len(x.Rhs) == 1 {
+			if u, ok := x.Rhs[0].(*ast.UnaryExpr); ok && u.Op == token.ARROW {
+				return nil, false // v, ok = <-ch: handled by the channel rule
+			}
+		}
+		for i := range x.Lhs {
+			x.Lhs[i] = r.lvalue(x.Lhs[i])
+		}
+		for i := range x.Rhs {
+			x.Rhs[i] = r.node(x.Rhs[i]).(ast.Expr)
+		}
+		return x, true
+	case *ast.IncDecStmt:
+		x.X = r.lvalue(x.X)
+		return x, true
+	case *ast.UnaryExpr:
+		if x.Op == token.AND && r.isFieldSel(x.X) && r.chainOK(x.X) {
+			return x, true // &x.f: taking the address is not an access
+		}
+	case *ast.CallExpr:
+		if id, ok := x.Fun.(*ast.Ident); ok && id.Name == "delete" && len(x.Args) == 2 && r.isFieldSel(x.Args[0]) && r.chainOK(x.Args[0]) {
+			x.Args[0] = r.wrapAccess(x.Args[0], true)
+			x.Args[1] = r.node(x.Args[1]).(ast.Expr)
+			return x, true
+		}
+	case *ast.SelectorExpr:
+		if r.isFieldSel(x) && r.chainOK(x) {
+			return r.wrapAccess(x, false), true
+		}
+	}
+	return nil, false
 }
